@@ -110,9 +110,8 @@ impl PartialEq for TypeHint {
 impl TypeHint {
     /// The source code equivalent of this type hint.
     pub(crate) fn as_src(&self) -> String {
-        if self.args.is_empty() {
-            format!("{}", self.sym.name)
-        } else if self.sym.name.text == "Tuple" {
+        if self.sym.name.text == "Tuple" {
+            // The hint `()` is a tuple with no arguments.
             let formatted_args = self
                 .args
                 .iter()
@@ -121,6 +120,8 @@ impl TypeHint {
                 .join(", ");
 
             format!("({formatted_args})")
+        } else if self.args.is_empty() {
+            format!("{}", self.sym.name)
         } else {
             let formatted_args = self
                 .args
